@@ -85,6 +85,8 @@ def centre_scale(cfg):
         c, s = np.array(t["edges"], dtype=float), np.full(d, 3.0)
     elif t["kind"] == "mix":
         c, s = np.zeros(d), np.full(d, 2.0)
+    elif t["kind"] == "quartic":
+        c, s = np.zeros(d), np.array(t["scale"], dtype=float)
     else:
         c, s = np.zeros(d), np.ones(d)
     return c, s * np.sqrt(cfg.get("T", 1.0))
